@@ -122,7 +122,7 @@ func GenHTTPS(t *rapid.T, label string) dns.HTTPS {
 		h.IPv4Hint = append(h.IPv4Hint, net.IP(genBytes(t, label+"_v4", 4)))
 	}
 	for i, n := 0, rapid.IntRange(0, 3).Draw(t, label+"_v6n"); i < n; i++ {
-		h.IPv6Hint = append(h.IPv6Hint, net.IP(genBytes(t, label+"_v6", 16)))
+		h.IPv6Hint = append(h.IPv6Hint, genV6(t, label+"_v6"))
 	}
 	if rapid.Bool().Draw(t, label+"_has_ech") {
 		h.ECH = genBytes(t, label+"_ech", rapid.IntRange(1, 120).Draw(t, label+"_echl"))
@@ -145,7 +145,7 @@ func GenRR(t *rapid.T, label string, allowOPT bool) dns.RR {
 	case 1:
 		rr.Data = net.IP(genBytes(t, label+"_a", 4))
 	case 28:
-		rr.Data = net.IP(genBytes(t, label+"_aaaa", 16))
+		rr.Data = genV6(t, label+"_aaaa")
 	case 2, 5, 12:
 		rr.Data = GenWireName(t, label+"_rdname")
 	case 65:
@@ -261,4 +261,14 @@ func CanonData(d any) string {
 		return "nil"
 	}
 	return fmt.Sprintf("other(%T):%v", d, d)
+}
+
+// genV6 draws a 16-byte address; one in four is an IPv4-mapped address
+// (::ffff:a.b.c.d), which is a perfectly valid AAAA / ipv6hint value.
+func genV6(t *rapid.T, label string) net.IP {
+	b := genBytes(t, label, 16)
+	if rapid.IntRange(0, 3).Draw(t, label+"_mapped") == 0 {
+		copy(b, []byte{0, 0, 0, 0, 0, 0, 0, 0, 0, 0, 0xff, 0xff})
+	}
+	return net.IP(b)
 }
